@@ -63,6 +63,8 @@ func minInt(a, b int) int {
 	return b
 }
 
+var guardTimeouts int
+
 type entryResult struct {
 	name     string
 	err      error
@@ -73,6 +75,9 @@ type entryResult struct {
 
 // guarded runs fn under recover and a watchdog.
 func guarded(name string, fn func() (error, string)) entryResult {
+	if guardTimeouts >= 2 { // two entry points already hang (reported): do not wait 8 s for each of the remaining inputs
+		return entryResult{name: name}
+	}
 	done := make(chan entryResult, 1)
 	go func() {
 		res := entryResult{name: name}
@@ -88,6 +93,7 @@ func guarded(name string, fn func() (error, string)) entryResult {
 	case r := <-done:
 		return r
 	case <-time.After(8 * time.Second):
+		guardTimeouts++
 		return entryResult{name: name, timeout: true}
 	}
 }
@@ -125,7 +131,11 @@ func allEntryPoints(b []byte, r *rng) []string {
 	}
 	// full decode with a typed-file listener and a definition listener
 	check(guarded("Decode+listeners", func() (error, string) {
-		lis := filedef.NewListener()
+		var lopts []filedef.Option
+		if r.chance(1, 2) { // the typed-file listener's own option: queue length between decoder and worker, down to none
+			lopts = append(lopts, filedef.WithChannelBuffer(uint(r.pick(0, 0, 1, 2, 128))))
+		}
+		lis := filedef.NewListener(lopts...)
 		defer lis.Close()
 		dec := decoder.New(newReader(), append(append([]decoder.Option(nil), opts...), decoder.WithMesgListener(lis), decoder.WithMesgDefListener(defSink{}))...)
 		var first error
@@ -161,6 +171,28 @@ func allEntryPoints(b []byte, r *rng) []string {
 			}
 		}
 		return first, ""
+	}))
+	// a reused decoder: Reset with another read-buffer size (the old array is kept when it is large enough), then a full decode
+	check(guarded("Reset+Decode (reused decoder)", func() (error, string) {
+		first := r.pick(0, 1, 766, 1024, 4096, 5000)
+		dec := decoder.New(newReader(), decoder.WithReadBufferSize(first))
+		for dec.Next() {
+			if _, err := dec.Decode(); err != nil {
+				break
+			}
+		}
+		second := maxInt(first, 765) + r.pick(-700, 0, 1, 2, 100, 764, 765, 766, 3000)
+		dec.Reset(newReader(), append(append([]decoder.Option(nil), opts...), decoder.WithReadBufferSize(second))...)
+		for dec.Next() {
+			fit, err := dec.Decode()
+			if err != nil {
+				if fit != nil {
+					return err, "error returned together with a FIT value"
+				}
+				return err, ""
+			}
+		}
+		return nil, ""
 	}))
 	check(guarded("DecodeWithContext", func() (error, string) {
 		dec := decoder.New(newReader(), opts...)
